@@ -125,6 +125,21 @@ func c07Case(r *evid.Run, tier string, idx int, g *rng.R) {
 	viol := func(class, what string) {
 		r.Violate(class, map[string]any{"case": idx, "what": what, "document": d.Dump()})
 	}
+	// one call of the case binds custom functions under the names of the builtin string functions
+	// (an option applies to the call it is given to): every later call of this process, here and
+	// in the following cases, must see the builtin ones again
+	{
+		custom := func(xsel.Context, ...xsel.Result) (xsel.Result, error) { return xsel.String("custom"), nil }
+		var shadow []xsel.ContextApply
+		for _, fn := range []string{"contains", "normalize-space", "string-length", "concat", "substring", "translate", "starts-with", "substring-before", "substring-after"} {
+			shadow = append(shadow, xsel.WithFunction(fn, custom))
+		}
+		got, _, err := w.libEval(d.Root, "concat(contains('ABC','b'), normalize-space(' x '), string-length('abc'))", shadow...)
+		r.Eval(1)
+		if err != nil || got != "custom" {
+			viol("shadowing", fmt.Sprintf("with custom functions bound under the builtin names, concat(...) gives %s (%v), expected the custom function's value", bridge.Show(got), errStr(err)))
+		}
+	}
 	sv := func(name string) xast.Var { return xast.Var{Local: name} }
 	// call evaluates e with the variables bound on both sides and compares.
 	call := func(fn string, e xast.Expr, vars map[string]refeval.Value) (refeval.Value, bool) {
